@@ -10,6 +10,7 @@ Block format (floats as 64-bit hex patterns):
   count:  sb <0|1>   sample <0|1>...   mnode <node ids>   mpos <hex>...   ntime <hex>... (nodes_time)
           breaks <hex>... (ts.breakpoints)   wantspan <0|1> (print the table of specified span weights)
   unary:  n <num_nodes>   mask <0|1>...
+  unaryw: flags <nodes_flags as naturals>...   skip <0|1>      (the wrapper util.contains_unary_nodes)
   end
 Replies (one line):
   <id> count <valid><noOverlap><nodesOk><mutsOk><timesOk><partitionOk> | <mutations_edge, -1 = NULL> |
@@ -17,6 +18,7 @@ Replies (one line):
        <samplesBelow at each mutation (the specified size-biased weight)> |
        <with wantspan: for every edge, the specified span weight at every break point, edges separated by ;>
   <id> unary <valid><nodesOk> <containsUnary 0|1> <hasLocallyUnary 0|1>
+  <id> unaryw <valid><nodesOk> <containsUnaryNodes 0|1>
   <id> bad-op      (unparsable, sweep out of fuel, or the walk towards the root failed)
 -/
 import TsdateVerif.Model.CountMut
@@ -83,12 +85,20 @@ def runUnary (id : String) (blk : List (List String)) (T : Tables Float) : Optio
   let res ← Unary.containsUnary T mask.toArray n
   pure (id ++ " unary " ++ flags ++ " " ++ b2s res ++ " " ++ b2s (Unary.hasLocallyUnary T))
 
+def runUnaryW (id : String) (blk : List (List String)) (T : Tables Float) : Option String := do
+  let flags ← mapAll String.toNat? (← field blk "flags")
+  let skip ← (← parseBools (← field blk "skip")).head?
+  let fl := b2s (validB T) ++ b2s (nodesBelowB T flags.length)
+  let res ← Unary.containsUnaryNodes T flags.toArray skip
+  pure (id ++ " unaryw " ++ fl ++ " " ++ b2s res)
+
 def runCase (blk : List (List String)) : Option String := do
   let id ← (← field blk "case").head?
   let op ← (← field blk "op").head?
   let T ← parseTables blk
   if op = "count" then runCount id blk T
   else if op = "unary" then runUnary id blk T
+  else if op = "unaryw" then runUnaryW id blk T
   else none
 
 partial def loop (h : IO.FS.Stream) : IO Unit := do
